@@ -155,6 +155,8 @@ func main() {
 		hostCrashStream(*seed, *n)
 	case "cpuruns":
 		cpuRuns(*seed, *n)
+	case "machcount":
+		machCountStream(*seed, *n)
 	case "mem04", "mem05", "mem06", "mem07":
 		memStream(*seed, *n, int(stream[4]-'0'))
 	default:
